@@ -157,6 +157,36 @@ func c13Reference(spec ReSpec, op *Op, cap int64) c13ref {
 	return v
 }
 
+// packed straight-line passes: k copies of one construct that pushes its maximum number of slots without a
+// backward jump in between, then a literal -- the shapes that test the capacity invariant itself (free space
+// >= what one pass can push) rather than the growth logic
+var packedUnits = []string{`(?:ab){0,2}?`, `(?:ab){0,2}`, `(?:x)??`, `(?:x)?`, `(a)`, `(?<n>a)?`, `(?=a)`, `(?!b)`, `(?<=a)`, `(?>a|b)?`,
+	`(?:a|b|c)`, `(?:ab|a)??`, `(a)?(?(1)b|c)`, `(?<o>a)(?<-o>b)?`, `a*?`, `[ab]{1,3}?`, `(?:a{1,2}?){1,2}?`, `\b`, `(?i:a)??`}
+
+func packedPattern(r *rng) (string, []string) {
+	u := packedUnits[r.n(len(packedUnits))]
+	k := 1 + r.n(12)
+	if r.chance(1, 4) {
+		k += r.n(20)
+	}
+	p := ""
+	for i := 0; i < k; i++ {
+		if r.chance(1, 6) {
+			p += packedUnits[r.n(len(packedUnits))]
+		} else {
+			p += u
+		}
+	}
+	switch r.n(4) {
+	case 0:
+		p = "(?:" + p + ")*"
+	case 1:
+		p = "^" + p
+	}
+	p += []string{"z", "z", "", "$", "b"}[r.n(5)]
+	return p, []string{"z", "a", "ab", "x", "b", "abab", "az", "", "c"}
+}
+
 var c13Kinds = []int{OpMatchString, OpMatchRunes, OpFindString, OpFindRunes, OpFindAllString, OpReplace, OpSplit, OpFindStringAt, OpReplaceFunc, OpCompatAllSubmatch}
 
 func genC13(seed uint64, tier string) *Scenario {
@@ -180,6 +210,18 @@ func genC13(seed uint64, tier string) *Scenario {
 			in = InputSpec{Pre: randABC(r, r.n(6)), Unit: randABC(r, 1+r.n(3)), Rep: 10 + r.n(200), Suf: randABC(r, r.n(4))}
 		}
 		frags = []string{"a", "b", "c", "ab", "abc", ""}
+	case x == 4 || x == 7:
+		pat, fr := packedPattern(r)
+		spec = ReSpec{Pat: pat}
+		if r.chance(1, 6) {
+			spec.Opts = oRTL
+		}
+		frags = fr
+		t := ""
+		for k := r.n(5); k > 0; k-- {
+			t += fr[r.n(len(fr))]
+		}
+		in = lit(t)
 	case x < 7:
 		spec = ReSpec{Pat: deepPats[r.n(len(deepPats))]}
 		if r.chance(1, 6) {
